@@ -40,6 +40,7 @@ type World struct {
 	UDPSocketFailAt int          // the n-th (1-based) outbound ListenPacket("udp","") fails; 0 = never
 	udpOutCount     int
 	TCPBuf   int // receive buffer size of TCP endpoints
+	TCPSndBuf int // send buffer size of TCP endpoints; 0 = no send queue (a write blocks until the peer's receive buffer takes the bytes)
 	UDPQueue int // datagrams a UDP socket queues before dropping
 }
 
@@ -141,6 +142,57 @@ type TCPConn struct {
 	ClosedAt      time.Duration
 	FinAt         time.Duration // when this side sent FIN (CloseWrite or Close), -1 if never
 	SentRST       bool
+	// send queue: bytes this side has written that the peer's receive buffer had no room for yet.
+	// Only used when a send buffer size is configured (World.TCPSndBuf or SetWriteBuffer);
+	// otherwise a write blocks until the peer's receive buffer takes the bytes. Unsent bytes are
+	// lost when the connection is reset (by either side); a FIN is delivered after them.
+	sq         []byte
+	finQueued  bool
+	sndBuf     int // 0: the world's default
+	rcvBuf     int // 0: the world's default
+}
+
+func (c *TCPConn) sndCap() int {
+	if c.sndBuf > 0 {
+		return c.sndBuf
+	}
+	return c.w.TCPSndBuf
+}
+
+func (c *TCPConn) rcvCap() int {
+	if c.rcvBuf > 0 {
+		return c.rcvBuf
+	}
+	return c.w.TCPBuf
+}
+
+// flush moves queued bytes of c into the peer's receive buffer as far as it has room, and delivers
+// a queued FIN once the queue is empty.
+func (c *TCPConn) flush() {
+	p := c.peer
+	if len(c.sq) > 0 {
+		if p.closed || p.readClosed {
+			c.sq = nil
+		} else if room := p.rcvCap() - len(p.rbuf); room > 0 {
+			n := len(c.sq)
+			if n > room {
+				n = room
+			}
+			p.rbuf = append(p.rbuf, c.sq[:n]...)
+			c.sq = c.sq[n:]
+		}
+	}
+	if len(c.sq) == 0 && c.finQueued {
+		c.finQueued = false
+		p.peerFin = true
+	}
+}
+
+// reset: the connection is reset; what either side had not sent yet is lost (what a side has
+// already received stays readable, then its reads fail).
+func (c *TCPConn) reset() {
+	c.sq, c.finQueued = nil, false
+	c.peer.sq, c.peer.finQueued = nil, false
 }
 
 func (c *TCPConn) Name() string { return fmt.Sprintf("c%d/%s", c.ID, c.Side) }
@@ -327,15 +379,17 @@ func (c *TCPConn) Read(b []byte) (int, error) {
 		return 0, opErr("read", "tcp", c.local, c.remote, net.ErrClosed)
 	case !c.rdl.IsZero() && !c.rdl.After(now):
 		return 0, opErr("read", "tcp", c.local, c.remote, timeoutErr{})
-	case c.rst:
-		return 0, opErr("read", "tcp", c.local, c.remote, errReset)
 	case c.readClosed:
 		return 0, io.EOF
 	case len(c.rbuf) > 0:
+		// (also after a reset: what was received before the RST stays readable, as on Linux)
 		n := copy(b, c.rbuf)
 		c.rbuf = c.rbuf[n:]
 		c.BytesRead += int64(n)
+		c.peer.flush()
 		return n, nil
+	case c.rst:
+		return 0, opErr("read", "tcp", c.local, c.remote, errReset)
 	default: // peerFin
 		return 0, io.EOF
 	}
@@ -354,7 +408,10 @@ func (c *TCPConn) Write(b []byte) (int, error) {
 		p := c.peer
 		vrt.WaitUntilOr("tcp.write", c,
 			func() bool {
-				return c.closed || c.writeClosed || c.rst || p.closed || p.readClosed || len(p.rbuf) < c.w.TCPBuf
+				if c.sndCap() > 0 {
+					return c.closed || c.writeClosed || c.rst || p.closed || len(c.sq) < c.sndCap()
+				}
+				return c.closed || c.writeClosed || c.rst || p.closed || p.readClosed || len(p.rbuf) < p.rcvCap()
 			},
 			func() time.Time { return c.wdl })
 		if vrt.Aborting() {
@@ -371,15 +428,33 @@ func (c *TCPConn) Write(b []byte) (int, error) {
 		case c.rst:
 			return total, opErr("write", "tcp", c.local, c.remote, errPipe)
 		case p.closed:
-			// the segment leaves, the peer answers with RST
+			// the segment leaves, the peer answers with RST (whatever the closed peer had still
+			// queued for us is lost with it)
 			c.rst = true
+			c.reset()
 			c.BytesWritten += int64(len(b))
 			return total + len(b), nil
 		case p.readClosed:
 			c.BytesWritten += int64(len(b))
 			return total + len(b), nil
 		}
-		room := c.w.TCPBuf - len(p.rbuf)
+		if c.sndCap() > 0 {
+			room := c.sndCap() - len(c.sq)
+			n := len(b)
+			if n > room {
+				n = room
+			}
+			c.sq = append(c.sq, b[:n]...)
+			c.flush()
+			c.BytesWritten += int64(n)
+			total += n
+			b = b[n:]
+			if len(b) == 0 {
+				return total, nil
+			}
+			continue
+		}
+		room := p.rcvCap() - len(p.rbuf)
 		n := len(b)
 		if n > room {
 			n = room
@@ -416,9 +491,12 @@ func (c *TCPConn) Close() error {
 	if len(c.rbuf) > 0 && !c.readClosed {
 		c.SentRST = true
 		c.peer.rst = true
+		c.reset()
 		vrt.Log("tcp.rst", c.Name(), "close-with-unread", int64(len(c.rbuf)))
 	} else if !c.writeClosed {
-		c.peer.peerFin = true
+		// orderly: the FIN follows whatever is still queued (the socket lingers in the background)
+		c.finQueued = true
+		c.flush()
 		c.FinAt = c.stamp()
 		vrt.Log("tcp.fin", c.Name(), "close", 0)
 	}
@@ -436,7 +514,8 @@ func (c *TCPConn) CloseWrite() error {
 	}
 	if !c.writeClosed {
 		c.writeClosed = true
-		c.peer.peerFin = true
+		c.finQueued = true
+		c.flush()
 		c.FinAt = c.stamp()
 		vrt.Log("tcp.fin", c.Name(), "closewrite", 0)
 	}
@@ -453,6 +532,7 @@ func (c *TCPConn) CloseRead() error {
 	}
 	c.readClosed = true
 	c.rbuf = nil
+	c.peer.flush()
 	return nil
 }
 
@@ -497,8 +577,10 @@ func (c *TCPConn) SetKeepAlive(bool) error                  { return nil }
 func (c *TCPConn) SetKeepAlivePeriod(time.Duration) error   { return nil }
 func (c *TCPConn) SetNoDelay(bool) error                    { return nil }
 func (c *TCPConn) SetLinger(int) error                      { return nil }
-func (c *TCPConn) SetReadBuffer(int) error                  { return nil }
-func (c *TCPConn) SetWriteBuffer(int) error                 { return nil }
+// SetReadBuffer / SetWriteBuffer set this endpoint's buffer sizes (the send queue exists only for
+// endpoints with a send buffer size).
+func (c *TCPConn) SetReadBuffer(n int) error  { c.rcvBuf = n; return nil }
+func (c *TCPConn) SetWriteBuffer(n int) error { c.sndBuf = n; return nil }
 
 var _ transport.StreamConn = (*TCPConn)(nil)
 
